@@ -23,6 +23,9 @@ class RawNode(Node):
     def __init__(self, token: TokenT, text: str) -> None:
         super().__init__(token)
         self.text = text
+        # Raw text is output verbatim. Like template text, it's only "blank" if it's
+        # empty or all whitespace.
+        self.blank = not text or text.isspace()
 
     def __str__(self) -> str:
         assert isinstance(self.token, RawToken)
